@@ -268,7 +268,7 @@ func (m *tabModel) step(ev string, started []string) {
 		n.checks++
 		n.live = true
 		changed := false
-		if p[2] != "alive" {
+		if p[2] != "alive" && p[2] != "nofetch" { // nofetch: the newer record could not be fetched, nothing to update
 			nr := mNode{id: id, seq: cur.seq + 1, ip: cur.ip, port: cur.port}
 			a := netip.MustParseAddr(cur.ip).As4()
 			switch p[2] {
